@@ -1,4 +1,5 @@
 import Modbus.Lemmas.Crc
+import Modbus.Model.Rtu
 /-
 Error detection at register level: bursts of at most 16 bits (back-step argument) and bit pairs
 (order of the round on the value 1), on the specification's bit-serial register `Spec.feed`.
@@ -122,6 +123,250 @@ theorem feed_window_ne_zero (w : List Bool) (p : Nat)
     · rw [List.getElem_take, List.getElem_drop]
       have e : p + (k - p) = k := by omega
       simp only [e]; exact hkt
+
+/-! ### bit pairs -/
+
+/-- a `Nat`-valued copy of the round, for kernel computation -/
+def roundNat (n : Nat) : Nat := if n % 2 = 1 then n / 2 ^^^ 0xA001 else n / 2
+
+theorem L_toNat (s : BitVec 16) : (L s).toNat = roundNat s.toNat := by
+  rw [L_def]
+  unfold roundNat
+  have hb : s.getLsbD 0 = decide (s.toNat % 2 = 1) := by
+    have : s.getLsbD 0 = s.toNat.testBit 0 := rfl
+    rw [this, Nat.testBit_zero]
+  rw [hb]
+  by_cases h : s.toNat % 2 = 1
+  · simp [h, P, BitVec.toNat_ushiftRight, Nat.shiftRight_eq_div_pow]
+  · simp [h, BitVec.toNat_ushiftRight, Nat.shiftRight_eq_div_pow]
+
+def roundNatPow : Nat → Nat → Nat
+  | 0, s => s
+  | n + 1, s => roundNatPow n (roundNat s)
+
+theorem Lpow_toNat (n : Nat) (s : BitVec 16) : (Lpow n s).toNat = roundNatPow n s.toNat := by
+  induction n generalizing s with
+  | zero => rfl
+  | succ n ih => rw [Lpow_succ, ih, L_toNat]; rfl
+
+/-- `orbitFree n s`: none of the first `n` iterates of the round from `s` is 1 -/
+def orbitFree : Nat → Nat → Bool
+  | 0, _ => true
+  | k + 1, s => roundNat s != 1 && orbitFree k (roundNat s)
+
+theorem orbitFree_spec (n s : Nat) (h : orbitFree n s = true) (d : Nat) (h1 : 1 ≤ d) (hd : d ≤ n) :
+    roundNatPow d s ≠ 1 := by
+  induction n generalizing s d with
+  | zero => omega
+  | succ n ih =>
+    simp only [orbitFree, Bool.and_eq_true, bne_iff_ne, ne_eq] at h
+    obtain ⟨hne, hrest⟩ := h
+    cases d with
+    | zero => omega
+    | succ d =>
+      cases d with
+      | zero => exact hne
+      | succ d => exact ih (roundNat s) hrest (d + 1) (by omega) (by omega)
+
+/-- ONE kernel computation: the value 1 does not return to 1 within 2047 rounds -/
+theorem orbit_2047 : orbitFree 2047 1 = true := by decide +kernel
+
+theorem Lpow_one_ne_one (d : Nat) (h1 : 1 ≤ d) (hd : d ≤ 2047) : Lpow d 1#16 ≠ 1#16 := by
+  intro h
+  have := congrArg BitVec.toNat h
+  rw [Lpow_toNat] at this
+  exact orbitFree_spec 2047 1 orbit_2047 d h1 hd this
+
+theorem split_at (w : List Bool) (p : Nat) (hp : p < w.length) :
+    w = w.take p ++ w[p] :: w.drop (p + 1) := by
+  rw [← List.drop_eq_getElem_cons hp, List.take_append_drop]
+
+theorem step_zero_true : Spec.lfsrStep 0#16 true = Lpow 1 1#16 := by decide
+
+/-- exactly two set bits at distance `d`, `1 ≤ d ≤ 2047`: the zero register does not return to zero -/
+theorem feed_two_ne_zero (w : List Bool) (p q : Nat) (hpq : p < q) (hq : q < w.length)
+    (hd : q - p ≤ 2047)
+    (h : ∀ k (hk : k < w.length), w[k] = true ↔ (k = p ∨ k = q)) : Spec.feed 0#16 w ≠ 0#16 := by
+  have hp : p < w.length := by omega
+  have hwp : w[p] = true := (h p hp).mpr (Or.inl rfl)
+  have hwq : w[q] = true := (h q hq).mpr (Or.inr rfl)
+  have hfalse : ∀ k (hk : k < w.length), k ≠ p → k ≠ q → w[k] = false := by
+    intro k hk h1 h2
+    cases hb : w[k] with
+    | false => rfl
+    | true => have := (h k hk).mp hb; omega
+  -- split at p, then the remainder at q - p - 1
+  have hlen1 : q - p - 1 < (w.drop (p + 1)).length := by rw [List.length_drop]; omega
+  have hs1 := split_at w p hp
+  have hs2 := split_at (w.drop (p + 1)) (q - p - 1) hlen1
+  have e1 : (w.drop (p + 1))[q - p - 1] = true := by
+    rw [List.getElem_drop]
+    have e : p + 1 + (q - p - 1) = q := by omega
+    simp only [e]; exact hwq
+  rw [e1, List.drop_drop] at hs2
+  rw [hwp, hs2] at hs1
+  have hA : ∀ b ∈ w.take p, b = false :=
+    allFalse_take w p (fun k hk hkp => hfalse k hk (by omega) (by omega))
+  have hB : ∀ b ∈ (w.drop (p + 1)).take (q - p - 1), b = false := by
+    apply allFalse_take
+    intro k hk hkp
+    rw [List.getElem_drop]
+    rw [List.length_drop] at hk
+    exact hfalse _ (by omega) (by omega) (by omega)
+  have hC : ∀ b ∈ w.drop (p + 1 + (q - p - 1 + 1)), b = false :=
+    allFalse_drop w _ (fun k hk hkp => hfalse k hk (by omega) (by omega))
+  have hBlen : ((w.drop (p + 1)).take (q - p - 1)).length = q - p - 1 := by
+    rw [List.length_take, List.length_drop]; omega
+  rw [hs1, feed_append, feed_cons, feed_append, feed_cons, feed_zero_of_allFalse _ hA,
+    step_zero_true, feed_allFalse _ _ hB, hBlen, ← Lpow_add, lfsrStep_eq_L]
+  apply feed_ne_zero_of_allFalse _ _ hC
+  intro h0
+  have h1 := L_eq_zero _ h0
+  have h2 : Lpow (1 + (q - p - 1)) 1#16 = 1#16 := by
+    have := BitVec.xor_eq_zero_iff.mp h1
+    simpa [bit] using this
+  exact Lpow_one_ne_one _ (by omega) (by omega) h2
+
+end Crc
+
+/-! ### frames: acceptance, error patterns -/
+
+/-- bytewise xor of two strings (an error pattern applied to a frame) -/
+def xorBytes (a b : Bytes) : Bytes := List.zipWith (· ^^^ ·) a b
+
+/-- the CRC comparison `rtu::extract_frame` makes when the whole of `f` is taken as the frame:
+    the last two bytes, read big-endian, equal `crc16` of everything before them -/
+def CrcOk (f : Bytes) : Prop :=
+  2 ≤ f.length ∧ read16 (f.drop (f.length - 2)) 0 = .ok (crc16 (f.take (f.length - 2)))
+
+instance (f : Bytes) : Decidable (CrcOk f) := by unfold CrcOk; infer_instance
+
+/-- bit `k` of a string in transmission order: byte `k / 8`, bit `k % 8` (least significant first) -/
+def errBit (E : Bytes) (k : Nat) : Bool := (E[k / 8]?.getD 0).toNat.testBit (k % 8)
+
+namespace Crc
+
+@[simp] theorem xorBytes_length (a b : Bytes) : (xorBytes a b).length = min a.length b.length := by
+  simp [xorBytes]
+
+theorem xorBytes_cons (x y : UInt8) (a b : Bytes) : xorBytes (x :: a) (y :: b) = (x ^^^ y) :: xorBytes a b := rfl
+
+theorem crcByte_xor (s t : UInt16) (x y : UInt8) :
+    crcByte (s ^^^ t) (x ^^^ y) = crcByte s x ^^^ crcByte t y := by
+  apply UInt16.toBitVec_inj.mp
+  rw [UInt16.toBitVec_xor, crcByte_toBitVec, crcByte_toBitVec, crcByte_toBitVec, ← Lpow_xor,
+    UInt8.toUInt16_xor]
+  simp only [UInt16.toBitVec_xor]
+  congr 1
+  ac_rfl
+
+/-- linearity over equal-length strings, general start values -/
+theorem crcRaw_xorBytes' (M E : Bytes) (h : M.length = E.length) (i j : UInt16) :
+    crcRaw (i ^^^ j) (xorBytes M E) = crcRaw i M ^^^ crcRaw j E := by
+  induction M generalizing E i j with
+  | nil =>
+    cases E with
+    | nil => rfl
+    | cons _ _ => simp at h
+  | cons x M ih =>
+    cases E with
+    | nil => simp at h
+    | cons y E =>
+      rw [xorBytes_cons, crcRaw_cons, crcRaw_cons, crcRaw_cons, crcByte_xor]
+      exact ih E (by simpa using h) _ _
+
+theorem crcRaw_xorBytes (M E : Bytes) (h : M.length = E.length) (i : UInt16) :
+    crcRaw i (xorBytes M E) = crcRaw i M ^^^ crcRaw 0 E := by
+  have := crcRaw_xorBytes' M E h i 0
+  simpa using this
+
+/-! acceptance ⇔ zero residue -/
+
+theorem crcOk_append (body : Bytes) (a b : UInt8) : CrcOk (body ++ [a, b]) ↔ rd16 a b = crc16 body := by
+  unfold CrcOk
+  have hl : (body ++ [a, b]).length - 2 = body.length := by simp
+  rw [hl, List.drop_left, List.take_left]
+  simp [read16]
+
+theorem exists_split_last2 (f : Bytes) (h : 2 ≤ f.length) : ∃ body a b, f = body ++ [a, b] := by
+  have hlen : (f.drop (f.length - 2)).length = 2 := by rw [List.length_drop]; omega
+  match hd : f.drop (f.length - 2), hlen with
+  | [a, b], _ => exact ⟨f.take (f.length - 2), a, b, by rw [← hd, List.take_append_drop]⟩
+
+theorem crcByte_init_ne_zero (a : UInt8) : crcByte 0xFFFF a ≠ 0 := by
+  revert a
+  apply byte_cases
+  decide +kernel
+
+theorem crcOk_append_iff_residue (body : Bytes) (a b : UInt8) :
+    CrcOk (body ++ [a, b]) ↔ crcRaw 0xFFFF (body ++ [a, b]) = 0 := by
+  rw [crcOk_append, crcRaw_append, crcRaw_two_eq_zero]
+  unfold crc16
+  constructor
+  · intro h
+    apply rotr8_inj
+    rw [rotr8_word, h]
+  · intro h
+    rw [h, rotr8_word]
+
+/-- the extractor's CRC comparison succeeds on `f` iff the raw register run over all of `f`
+    (CRC bytes included) ends at zero -/
+theorem crcOk_iff_residue (f : Bytes) : CrcOk f ↔ crcRaw 0xFFFF f = 0 := by
+  by_cases hl : 2 ≤ f.length
+  · obtain ⟨body, a, b, rfl⟩ := exists_split_last2 f hl
+    exact crcOk_append_iff_residue body a b
+  · constructor
+    · intro h; exact absurd h.1 hl
+    · intro h
+      exfalso
+      match f, hl with
+      | [], _ => revert h; decide
+      | [a], _ => exact crcByte_init_ne_zero a h
+      | _ :: _ :: _, hl => simp at hl
+
+theorem bitsLSB_getElem (x : UInt8) (k : Nat) (h : k < (Spec.bitsLSB x).length) :
+    (Spec.bitsLSB x)[k] = x.toNat.testBit k := by
+  simp [Spec.bitsLSB]
+
+/-- `errBit` indexes the specification's transmission-order bit string -/
+theorem messageBits_getElem (E : Bytes) (k : Nat) (h : k < (Spec.messageBits E).length) :
+    (Spec.messageBits E)[k] = errBit E k := by
+  induction E generalizing k with
+  | nil => simp [messageBits_nil] at h
+  | cons x m ih =>
+    simp only [messageBits_cons] at h ⊢
+    rw [List.getElem_append]
+    split
+    · rename_i hk
+      rw [bitsLSB_length] at hk
+      rw [bitsLSB_getElem]
+      unfold errBit
+      have e1 : k / 8 = 0 := by omega
+      have e2 : k % 8 = k := by omega
+      simp [e1, e2]
+    · rename_i hk
+      rw [bitsLSB_length] at hk
+      rw [List.length_append, bitsLSB_length] at h
+      simp only [bitsLSB_length]
+      rw [ih (k - 8) (by omega)]
+      unfold errBit
+      have e1 : k / 8 = (k - 8) / 8 + 1 := by omega
+      have e2 : k % 8 = (k - 8) % 8 := by omega
+      rw [e1, e2, List.getElem?_cons_succ]
+
+/-- with a valid frame `F`, the corrupted frame `F ⊕ E` passes the CRC comparison iff the error
+    pattern's own register value from start 0 is zero -/
+theorem crcOk_xor_iff (F E : Bytes) (hF : CrcOk F) (hlen : E.length = F.length) :
+    CrcOk (xorBytes F E) ↔ crcRaw 0 E = 0 := by
+  rw [crcOk_iff_residue] at hF ⊢
+  rw [crcRaw_xorBytes F E hlen.symm, hF, UInt16.zero_xor]
+
+theorem crcRaw_zero_ne_zero_of_feed (E : Bytes) (h : Spec.feed 0#16 (Spec.messageBits E) ≠ 0#16) :
+    crcRaw 0 E ≠ 0 := by
+  intro h0
+  apply h
+  rw [← UInt16.toBitVec_inj, crcRaw_eq_feed] at h0
+  exact h0
 
 end Crc
 end Modbus
